@@ -2599,13 +2599,14 @@ class GreedyRange(Subconstruct):
     def _parse(self, stream, context, path):
         discard = self.discard
         obj = ListContainer()
+        fallback = stream_tell(stream, path)
         try:
             for i in itertools.count():
                 context._index = i
-                fallback = stream_tell(stream, path)
                 e = self.subcon._parsereport(stream, context, path)
                 if not discard:
                     obj.append(e)
+                fallback = stream_tell(stream, path)
         except StopFieldError:
             pass
         except ExplicitError:
